@@ -21,7 +21,7 @@ import (
 
 func TestMain(m *testing.M) { kit.Main(m) }
 
-const rule = "node-family scenarios (2-6 nodes, arbitrary digraph through qualifier masks, ring/group/by-name edges, eager/lazy/primary variants, optional consistent early-wrapping post-processor, drawn registration and registry-enumeration orders); non-trivial = start succeeded and some component is held by >=2 distinct holders or by a holder on a cycle with it; distinct by scenario shape"
+const rule = "node-family scenarios (2-6 nodes, arbitrary digraph through qualifier masks, ring/group/by-name edges, eager/lazy/primary variants, optional consistent early-wrapping post-processor, drawn registration and registry-enumeration orders); non-trivial = start succeeded and some component is held by >=2 distinct holders or by a holder on a cycle with it; distinct by scenario shape; since rounds 7/8 also nodes that are post-processors themselves, and after each start lookups under names that only resemble registered ones (blanks around the name, the type id of a renamed component): they fail or return the shared instance and create nothing"
 
 // checkIdentity is the C01 oracle. Returns labels and whether the case is non-trivial.
 func checkIdentity(in *graph.Instance, wrap *graph.WrapPP) (labels []string, nontrivial bool, err error) {
